@@ -6,18 +6,30 @@ durations are multiples of 1/8 s, decimals have no exponent and no trailing zero
 from __future__ import annotations
 
 import datetime
+import enum
 from decimal import Decimal
 
 from lxml import etree
 
 import xs_lib as X
+import xs_xsd as D
 from sdc11073.xml_types import dataconverters as dc
-from sdc11073.xml_types import isoduration
+from sdc11073.xml_types import isoduration, mex_types, pm_types
 from sdc11073.xml_types import xml_structure as xs
 
 LETTERS = 'abcXYZ019_-.'
 EXOTIC = ['ä', 'ß', '€', '漢', '<', '&', '"', "'", '>', ' ', '  ', '\t', '\n', ';', ':', '/', '%', '#', '\U0001f600']
 NS_POOL = [X.NSMAP['dom'], X.NSMAP['msg'], X.NSMAP['sdc'], X.NSMAP['mdpws'], X.NSMAP['dpws'], X.NSMAP['wsd']]
+
+
+_INDEX = None
+
+
+def get_index():
+    global _INDEX
+    if _INDEX is None:
+        _INDEX = D.Index()
+    return _INDEX
 
 
 class Skip(Exception):
@@ -34,6 +46,7 @@ class Gen:
         self.max_list = max_list
         self.stats = {}
         self._subs = {}
+        self.idx = get_index()
 
     def count(self, key, n=1):
         self.stats[key] = self.stats.get(key, 0) + n
@@ -134,9 +147,12 @@ class Gen:
             el.text = t if t.strip() else 't'
         return el
 
-    def by_converter(self, conv, prop, name):
+    def by_converter(self, conv, prop, name, simple=None):
+        """a Python value of the type the descriptor's converter handles, inside the schema's value space `simple`"""
+        if simple is not None and simple.base == 'union' and simple.members:
+            simple = simple.members[0]
         if conv is dc.StringConverter or isinstance(conv, type) and issubclass(conv, dc.StringConverter):
-            return self.string_for(prop, name)
+            return self.string_for(prop, name, simple)
         if isinstance(conv, dc.EnumConverter):
             members = list(conv._klass)  # noqa: SLF001
             self.count('enum_members')
@@ -146,12 +162,17 @@ class Gen:
         if conv is dc.DurationConverter:
             return self.eighths()
         if conv is dc.DecimalConverter:
-            if isinstance(prop, xs.QualityIndicatorAttributeProperty):
+            if isinstance(prop, xs.QualityIndicatorAttributeProperty) or (simple is not None and simple.max_incl == '1'):
                 return self.decimal(0, 1)
             return self.decimal()
         if conv is dc.IntegerConverter or isinstance(conv, type) and issubclass(conv, dc.IntegerConverter):
-            signed = type(prop) in (xs.IntegerAttributeProperty, xs.NodeIntProperty) and name in SIGNED_INTS
-            return self.integer(signed)
+            base = simple.base if simple is not None else 'unsignedInt'
+            v = self.integer(base in ('int', 'long', 'integer', 'short'))
+            if base == 'positiveInteger':
+                v = max(v, 1)
+            if base in ('unsignedShort', 'short'):
+                v = v % 30000
+            return v
         if conv is dc.BooleanConverter:
             return self.rng.random() < 0.5
         if isinstance(conv, dc.ClassCheckConverter):
@@ -159,10 +180,41 @@ class Gen:
             if etree.QName in kl:
                 return self.qname()
             if str in kl:
-                return self.string_for(prop, name)
-        raise Skip(f'converter {conv!r}')
+                return self.string_for(prop, name, simple)
+            if int in kl:
+                return self.integer()
+            for k in kl:
+                if isinstance(k, type) and issubclass(k, enum.Enum):
+                    return self.rng.choice(list(k))
+        raise Skip(f'converter {type(conv).__name__ if not isinstance(conv, type) else conv.__name__}')
 
-    def string_for(self, prop, name):
+    def string_for(self, prop, name, simple=None):
+        if simple is not None:
+            if simple.enum:
+                return self.rng.choice(simple.enum)
+            b = simple.base
+            if b == 'anyURI':
+                return self.uri()
+            if b == 'language':
+                return self.lang()
+            if b == 'dateTime':
+                return self.date_time()
+            if b in ('NCName', 'ID', 'Name', 'NMTOKEN', 'token'):
+                return 'n' + ''.join(self.rng.choice('abcXYZ09_') for _ in range(self.rng.randint(1, 6)))
+            if b in ('unsignedLong', 'unsignedInt', 'integer', 'int', 'long', 'nonNegativeInteger', 'positiveInteger'):
+                return str(max(self.integer(), 1 if b == 'positiveInteger' else 0))
+            if b == 'decimal':
+                return str(self.decimal())
+            if b == 'duration':
+                return 'PT' + str(self.rng.randint(0, 500)) + 'S'
+            if b == 'boolean':
+                return self.rng.choice(['true', 'false'])
+            if b in ('string', 'normalizedString'):
+                return self.string(simple.min_length)
+            if b == 'list':
+                return ' '.join(self.string_for(prop, name, simple.item).replace(' ', '_') or 'x'
+                                for _ in range(self.rng.randint(1, 3)))
+            return self.string(max(simple.min_length, 1))
         if isinstance(prop, (xs.AnyURIAttributeProperty, xs.AnyUriTextElement)):
             return self.uri()
         if isinstance(prop, (xs.HandleAttributeProperty, xs.HandleRefAttributeProperty)):
@@ -175,6 +227,12 @@ class Gen:
         if isinstance(prop, xs.NodeTextProperty) and getattr(prop, '_min_length', 0):
             return self.string(1)
         return self.string()
+
+    def date_time(self):
+        r = self.rng
+        s = f'{r.choice([1970, 2001, 2024])}-{r.randint(1, 12):02d}-{r.randint(1, 28):02d}T{r.randint(0, 23):02d}:' \
+            f'{r.randint(0, 59):02d}:{r.randint(0, 59):02d}'
+        return s + r.choice(['', 'Z', '+02:00', '.5', '.125Z'])
 
     # ------------------------------------------------------------------ structured values
     def subclasses(self, vcls):
@@ -195,22 +253,96 @@ class Gen:
             self._subs[vcls] = res
         return self._subs[vcls]
 
-    def pick_class(self, prop, vcls):
+    def pick_class(self, prop, vcls, child_ct=None):
         """the declared value class or (xsi:type) one of its concrete subclasses that the reader resolves back"""
+        if vcls is pm_types.PropertyBasedPMType and isinstance(prop, xs.SubElementListProperty):
+            return self.rng.choice(MEX_SECTIONS)       # mex Metadata sections are told apart by their Dialect
         subs = [c for c in self.subclasses(vcls) if resolves_back(prop, vcls, c)]
-        abstract = vcls.__name__.startswith('Abstract') or getattr(vcls, 'NODETYPE', 1) is None and subs and hasattr(vcls, 'NODETYPE')
+        if child_ct is not None and child_ct.name is not None:
+            subs = [c for c in subs if self.derives(c.NODETYPE, child_ct.name)]
+        abstract = vcls.__name__.startswith('Abstract') or (child_ct is not None and child_ct.abstract)
         if subs and (abstract or self.rng.random() < self.p_subst):
             self.count('xsi_type_substitutions')
             return self.rng.choice(subs)
         return vcls
 
-    def instance(self, cls, depth=0, full=False):
-        """a populated instance of cls; full=True sets every member (optional ones too)"""
+    def particle(self, ct, prop):
+        """(kind, info) of the schema particle a property maps to: ('a', (simple, required)) | ('e', Elem) | None"""
+        if ct is None:
+            return self.global_particle(prop)
+        if isinstance(prop, xs._AttributeBase):  # noqa: SLF001
+            n = prop._attribute_name  # noqa: SLF001
+            n = n.text if isinstance(n, etree.QName) else n
+            if n in ct.attrs:
+                typ, req = ct.attrs[n]
+                return 'a', (self.idx.simple(typ), req)
+            return None
+        qn = getattr(prop, '_sub_element_name', None)
+        if qn is None:
+            return ('t', self.idx.simple(ct.text)) if ct.text is not None else None
+        for e in ct.elems:
+            if e.qname == qn.text:
+                return 'e', e
+        return self.global_particle(prop)
+
+    def global_particle(self, prop):
+        """an element that is not a particle of the owner's schema type (xs:any, or no schema type known) but is
+        declared globally: its declaration tells the type of the content (it does not make the member mandatory)"""
+        qn = getattr(prop, '_sub_element_name', None)
+        if qn is None or isinstance(prop, xs._AttributeBase):  # noqa: SLF001
+            return None
+        g = self.idx.elements.get((qn.namespace, qn.localname))
+        if g is None:
+            return None
+        return 'e', D.Elem(g.qname, g.type, 0, -1)
+
+    def derives(self, qn, base_key):
+        """is the schema type named qn derived from (or equal to) base_key ?"""
+        key = (qn.namespace, qn.localname)
+        for _ in range(12):
+            if key == base_key:
+                return True
+            ct = self.idx.ctype(key)
+            if ct is None or ct.base is None:
+                return False
+            key = ct.base
+        return False
+
+    def ctype_of(self, cls):
+        ct, how = self.idx.for_qname(getattr(cls, 'NODETYPE', None))
+        return ct
+
+    def instance(self, cls, depth=0, full=False, ct=None):
+        """a populated instance of cls; ct = schema type it has to conform to (default: the one named by
+        cls.NODETYPE); full=True sets every member (optional ones too)"""
+        if ct is None:
+            ct = self.ctype_of(cls)
+        self.count('with_schema_type' if ct is not None else 'without_schema_type')
         obj = X.construct(cls)
+        choice_taken = False
         for name, prop in X.class_props(cls):
             if isinstance(prop, xs.CurrentTimestampAttributeProperty):
                 continue
+            part = self.particle(ct, prop)
             mandatory = not prop.is_optional
+            lo, hi = 0, self.max_list
+            if cls in MEX_SECTIONS and name == 'Location':     # wsx:MetadataSection is a CHOICE: embedded data | Location
+                if cls is not mex_types.LocationMetadataSection:
+                    continue
+                mandatory = True
+            if part is not None:
+                if part[0] == 'a' and part[1][1]:
+                    mandatory = True
+                elif part[0] == 'e':
+                    e = part[1]
+                    if e.in_choice:
+                        if choice_taken:
+                            continue
+                    if e.min >= 1:
+                        mandatory = True
+                        lo = e.min
+                    if e.max != -1:
+                        hi = min(hi, e.max)
             islist = isinstance(prop, (xs._ElementListProperty, xs._AttributeListBase))  # noqa: SLF001
             if not mandatory and not full:
                 p = self.p_optional if depth < self.max_depth else 0.15
@@ -219,20 +351,48 @@ class Gen:
                     continue
                 self.count('optional_present')
             try:
-                v = self.value(cls, name, prop, depth, mandatory)
+                v = self.value(cls, name, prop, depth, mandatory, part, lo, hi)
             except Skip as ex:
                 self.count('skipped:' + str(ex)[:40])
                 continue
+            if part is not None and part[0] == 'e' and part[1].in_choice:
+                choice_taken = True
             if islist:
                 self.count(f'list_len_{min(len(v), 3)}')
             setattr(obj, name, v)
         return obj
 
-    def value(self, owner, name, prop, depth, mandatory=True):
+    def value(self, owner, name, prop, depth, mandatory=True, part=None, lo=0, hi=None):
         r = self.rng
+        hi = self.max_list if hi is None else hi
         deep = depth >= self.max_depth
+        simple = None
+        child_ct = None
+        if part is not None:
+            if part[0] in ('a', 't'):
+                simple = part[1][0] if part[0] == 'a' else part[1]
+            else:
+                t = self.idx.elem_type(part[1])
+                if isinstance(t, D.CType):
+                    child_ct = t
+                    if t.text is not None:
+                        simple = self.idx.simple(t.text)
+                else:
+                    simple = t
+
+        def count(default_hi):
+            h = min(hi, default_hi)
+            lo2 = min(max(lo, 0), h) if h >= lo else lo
+            return r.randint(lo2, max(h, lo2))
+
+        item = simple.item if simple is not None and simple.base == 'list' else simple
+        if name == 'Dialect' and owner in MEX_SECTIONS:
+            raise Skip('mex Dialect keeps its default (it selects the section class)')
+        hook = HOOKS.get((owner.__name__, name))
+        if hook is not None:
+            return hook(self)
         if isinstance(prop, xs._AttributeListBase):  # noqa: SLF001
-            n = r.randint(0, self.max_list)
+            n = r.randint(1 if (part is not None and part[0] == 'a' and part[1][1]) else 0, self.max_list)
             ec = prop._converter._element_converter  # noqa: SLF001
             if ec is dc.DecimalConverter:
                 return [self.decimal() for _ in range(n)]
@@ -240,7 +400,7 @@ class Gen:
         if isinstance(prop, xs.QNameAttributeProperty):
             return self.qname()
         if isinstance(prop, xs._AttributeBase):  # noqa: SLF001
-            return self.by_converter(prop._converter, prop, name)  # noqa: SLF001
+            return self.by_converter(prop._converter, prop, name, simple)  # noqa: SLF001
         if isinstance(prop, xs.ExtensionNodeProperty):
             return xs.ExtensionLocalValue([self.any_element() for _ in range(r.randint(0 if not mandatory else 1, 2))])
         if isinstance(prop, xs.AnyEtreeNodeListProperty):
@@ -254,24 +414,44 @@ class Gen:
         if isinstance(prop, xs.NodeTextQNameListProperty):
             return [self.qname() for _ in range(r.randint(0, self.max_list))]
         if isinstance(prop, xs.NodeTextListProperty):
+            if item is not None and item.base == 'anyURI':
+                return [self.uri() for _ in range(r.randint(0, self.max_list))]
             return [self.word() for _ in range(r.randint(0, self.max_list))]
         if isinstance(prop, xs.SubElementTextListProperty):
-            n = r.randint(0, self.max_list)
-            if isinstance(prop, xs.SubElementHandleRefListProperty):
-                return [self.string(1) for _ in range(n)]
-            return [self.string() for _ in range(n)]
+            n = count(self.max_list)
+            ec = prop._converter._element_converter  # noqa: SLF001
+            return [self.by_converter(ec, prop, name, simple) if not isinstance(prop, xs.SubElementHandleRefListProperty)
+                    else self.string(1) for _ in range(n)]
         if isinstance(prop, xs.NodeTextProperty):
-            return self.by_converter(prop._converter, prop, name)  # noqa: SLF001
+            return self.by_converter(prop._converter, prop, name, simple)  # noqa: SLF001
         if isinstance(prop, (xs.SubElementListProperty, xs.ContainerListProperty)):
-            n = 0 if deep else r.randint(0, self.max_list)
-            return [self.instance(self.pick_class(prop, prop.value_class), depth + 1) for _ in range(n)]
+            n = lo if deep else count(self.max_list)
+            return [self.sub_instance(prop, depth, child_ct) for _ in range(n)]
         if isinstance(prop, xs.SubElementWithSubElementListProperty):
-            return self.instance(prop.value_class, depth + 1)
+            return self.instance(prop.value_class, depth + 1, ct=child_ct)
         if isinstance(prop, (xs.SubElementProperty, xs.ContainerProperty)):
-            return self.instance(self.pick_class(prop, prop.value_class), depth + 1)
+            return self.sub_instance(prop, depth, child_ct)
         raise Skip(f'property class {type(prop).__name__}')
 
+    def sub_instance(self, prop, depth, child_ct):
+        c = self.pick_class(prop, prop.value_class, child_ct)
+        own = self.ctype_of(c) if c is not prop.value_class or child_ct is None else None
+        return self.instance(c, depth + 1, ct=own or child_ct)
 
+
+MEX_SECTIONS = [mex_types.ThisModelMetadataSection, mex_types.ThisDeviceMetadataSection,
+                mex_types.RelationshipMetadataSection, mex_types.LocationMetadataSection]
+
+
+def _mdib_element(g):
+    el = etree.Element(etree.QName(X.NSMAP['msg'], 'Mdib'), nsmap={'msg': X.NSMAP['msg']})
+    el.set('SequenceId', g.uri())
+    if g.rng.random() < 0.5:
+        el.set('MdibVersion', str(g.integer()))
+    return [el]
+
+
+HOOKS = {('GetMdibResponse', 'Mdib'): _mdib_element}
 SIGNED_INTS = ()   # attribute names typed xsd:int / xsd:long (none of today's declarations needs negative values)
 
 
